@@ -194,6 +194,16 @@ impl Documents {
                 err: err.to_string(),
             })?;
 
+        // `tokio::fs::File` hands the write to a blocking task and `write_all` returns before it
+        // has run. The compilation that is requested next reads this file from disk, so wait
+        // until the text is really there.
+        file.flush()
+            .await
+            .map_err(|err| DocumentError::UnableToWriteFile {
+                path: uri.path().to_string(),
+                err: err.to_string(),
+            })?;
+
         Ok(())
     }
 
